@@ -254,7 +254,7 @@ def _is(du, val, V):
 
 
 import contracts.mps_values as MV
-from contracts.mps_values import h_pbc_values, h_mpo_mpo_values, h_complex_values, h_reverse_values, h_env3_refresh, h_overlap_values, h_mpo_values, h_env3_values, h_env_sum_project_values, h_measure_values
+from contracts.mps_values import h_pbc_values, h_mpo_mpo_values, h_complex_values, h_reverse_values, h_env3_refresh, h_overlap_values, h_mpo_values, h_env3_values, h_env_sum_project_values, h_measure_values, h_project_values
 FUNCTIONS = list(FUNCTIONS) + [f_ for f_ in MV.FUNCTIONS if f_ not in FUNCTIONS]
 import contracts.alg_bounded as AB
 from contracts.alg_bounded import h_tdvp_numeric
